@@ -38,8 +38,20 @@ def run(ctx):
                 "multisets)")
     ctx.assume("exact commutative arithmetic for the folded sums (property text)")
 
-    _flattened(ctx, model, "flattened_sum", "Sum", 0, annihilator=None)
-    _flattened(ctx, model, "flattened_product", "Product", 1, annihilator=0)
+    for fname_, cls_, neutral_, ann_ in (
+            ("flattened_sum", "Sum", 0, None),
+            ("flattened_product", "Product", 1, 0)):
+        jwit = _judge_flattened(ctx, model, fname_, cls_, neutral_, ann_)
+        mark = len(ctx.obs)
+        try:
+            _flattened(ctx, model, fname_, cls_, neutral_, annihilator=ann_)
+        except AnalysisError:
+            if jwit is None or jwit:
+                raise
+        if jwit is not None and not jwit:
+            ctx.withdraw_failures_since(
+                mark, "decided by interpreting the constructor on operand lists",
+                f"P/{fname_}/")
     _flatten_mapper(ctx, model)
     _fold(ctx, model)
     _folders(ctx, model)
@@ -72,6 +84,81 @@ def _item_cond(v, what, cls=None):
 def _is_item(a):
     return isinstance(a, tuple) and a[0] == "call" and isinstance(a[1], str) \
         and a[1].rsplit(".", 1)[-1] in ("pop", "popleft")
+
+
+def _judge_flattened(ctx, model, fname, cls, neutral, annihilator):
+    """interpretive judge: the smart constructor interpreted (pv/opjudge.py's
+    world) on operand lists -- variables, numbers, the neutral element, nested
+    nodes of the same class two levels deep, for a product also a zero.  The
+    result has the value of cls(operands) (value normal form), holds no node of
+    the same class directly beneath it, no neutral element, and is the operand
+    itself when one is left (the neutral element when none is).
+    -> witnesses | None"""
+    from .. import opjudge
+    from ..absint import Closure, Obj, Raised, StepBound
+    try:
+        w = opjudge.World(model)
+        f = w.glob.get(fname)
+        if not isinstance(f, Closure):
+            raise AnalysisError(f"{fname} not found")
+        a, b, c, d = (opjudge._var(x) for x in "abcd")
+
+        def N(*ch):
+            return opjudge._node(cls, *ch)
+        other = "Product" if cls == "Sum" else "Sum"
+        cases = [[], [a], [a, b], [a, neutral, b], [neutral], [neutral, neutral],
+                 [N(a, b), c], [a, N(b, N(c, d))], [N(a, neutral), b],
+                 [opjudge._node(other, a, b), c], [2, a, 3],
+                 [N(N(a, b), N(c, d))]]
+        if annihilator is not None:
+            cases += [[a, annihilator, b], [N(a, annihilator), b]]
+        wit = []
+        for ops in cases:
+            it = w.interp()
+            label = f"{fname}({[opjudge.nf(x) for x in ops]})"
+            for arg in (list(ops), tuple(ops)):
+                try:
+                    res = it.apply(f, [arg])
+                except Raised as r:
+                    wit.append(f"{label}: raises at line "
+                               f"{getattr(r.node, 'lineno', '?')}")
+                    break
+                except StepBound:
+                    wit.append(f"{label}: does not terminate")
+                    break
+                want = opjudge.nf(N(*ops))
+                got = opjudge.nf(res)
+
+                def bag(x):
+                    # operands of a sum / product commute in value
+                    return (x[0], tuple(sorted(map(repr, x[1])))) \
+                        if x[0] == cls else x
+                if bag(got) != bag(want):
+                    wit.append(f"{label}: gives {got}, the value of the operands "
+                               f"is {want}")
+                    break
+                if isinstance(res, Obj) and res.cls == cls:
+                    kids = res.fields["children"]
+                    if any(isinstance(k, Obj) and k.cls == cls for k in kids):
+                        wit.append(f"{label}: a {cls} is left directly beneath "
+                                   f"the {cls}")
+                        break
+                    if any(not isinstance(k, Obj) and k == neutral for k in kids):
+                        wit.append(f"{label}: the neutral element is kept")
+                        break
+                    if len(kids) < 2:
+                        wit.append(f"{label}: a {cls} of {len(kids)} operand(s) "
+                                   "is built")
+                        break
+    except AnalysisError as e:
+        ctx.extra[f"judge_unavailable:{fname}"] = str(e)[:120]
+        return None
+    ctx.ob(f"P0/{fname}/flattening-semantics", not wit,
+           model.repo.module("pymbolic.primitives").relpath,
+           f"{fname} interpreted on {len(cases)} operand lists: value kept, no "
+           f"{cls} beneath the {cls}, no neutral element, one operand comes back "
+           "as itself" if not wit else f"{fname}: " + "; ".join(wit[:2]))
+    return wit
 
 
 def _flattened(ctx, model, fname, cls, neutral, annihilator):
